@@ -5,7 +5,7 @@ import random
 import os
 import subprocess
 
-from vlib import (Inconclusive, NCPU, ScenarioSink, cex_last_state, cfg, finish, kf_open, log, build_harness,
+from vlib import (known_findings, Inconclusive, NCPU, ScenarioSink, cex_last_state, cfg, finish, kf_open, log, build_harness,
                   run_harness, save_replay, tla_bool, tlc, validate_traces)
 
 KFS = ["S1", "S3", "S7", "S9", "S15", "S19", "S20", "S21"]
@@ -38,16 +38,16 @@ PROPS = {
                 obs=["Obs_C06_NoStrand", "Obs_C06_NoLoss", "Obs_C06_LoggedDelivered", "Obs_C06_Trichotomy", "Obs_C01_Final", "Obs_C05_Once"],
                 universes=["U1", "U3"], dcfg=[("U1", "crash")], crashall=True),
     "C09": dict(design=["P_C09_Sound", "P_C09_Complete"],
-                obs=["Obs_C09_Sound", "Obs_C09_Complete", "Obs_C09_Scan", "Obs_C09_Received"],
+                obs=["Obs_C09_Sound", "Obs_C09_Complete", "Obs_C09_Scan", "Obs_C09_Received", "Obs_C09_ReceivedN"],
                 universes=["U1", "U3"], dcfg=[("U1", "plain"), ("U1", "crash")]),
     "C20": dict(design=["P_C20_OnlyDelivered"], obs=["Obs_C20_OnlyDelivered", "Obs_C20_NoTouch"],
                 universes=["U1", "U4"], dcfg=[("U1", "clean")]),
 }
 
 BUDGETS = {
-    "plain": dict(MaxThr=2, MaxReq=3, MaxCrash=0, MaxCorrupt=1, MaxClean=0, MaxExpire=0, MaxOverwrite=1, MaxQuery=1),
-    "crash": dict(MaxThr=2, MaxReq=3, MaxCrash=1, MaxCorrupt=1, MaxClean=0, MaxExpire=0, MaxOverwrite=0, MaxQuery=1),
-    "clean": dict(MaxThr=2, MaxReq=3, MaxCrash=0, MaxCorrupt=1, MaxClean=2, MaxExpire=1, MaxOverwrite=0, MaxQuery=1),
+    "plain": dict(MaxThr=2, MaxReq=2, MaxCrash=0, MaxCorrupt=1, MaxClean=0, MaxExpire=0, MaxOverwrite=1, MaxQuery=1),
+    "crash": dict(MaxThr=2, MaxReq=2, MaxCrash=1, MaxCorrupt=1, MaxClean=0, MaxExpire=0, MaxOverwrite=0, MaxQuery=1),
+    "clean": dict(MaxThr=2, MaxReq=2, MaxCrash=0, MaxCorrupt=1, MaxClean=2, MaxExpire=1, MaxOverwrite=0, MaxQuery=1),
 }
 BUDGETS_THOROUGH = {
     "plain": dict(MaxThr=2, MaxReq=4, MaxCrash=0, MaxCorrupt=1, MaxClean=0, MaxExpire=0, MaxOverwrite=1, MaxQuery=1),
@@ -80,13 +80,21 @@ def base_consts(u, budgets, hostile, extra=None):
     c.update(budgets)
     c.update(kf_consts())
     c["Hostile"] = tla_bool(hostile)
-    c.update({"MaxCmds": 0, "GenCrash": "FALSE", "Emit": "FALSE", "TraceFile": '"none"'})
+    c.update({"MaxCmds": 0, "GenCrash": "FALSE", "Emit": "FALSE", "TraceFile": '"none"', "Focus": "{}", "FullOnly": "FALSE"})
     if extra:
         c.update(extra)
     return c
 
 
 QUICK_CAP = 3000
+FOCUS_PARTS = {"C09", "C01"}     # properties about parts of files: focused sequences carry parts too
+FOCUS = {"C20": ["recv", "prepare", "age", "clean", "restart"],
+         "C06": ["recv", "status", "restart"],
+         "C05": ["recv", "received", "restart", "expire"],
+         "C04": ["recv", "status", "timer", "clean"],
+         "C09": ["recv", "prepare", "received", "received2"],
+         "C01": ["recv", "status", "overwrite"]}
+WANT_OPS = {"C20": {"age", "clean"}, "C06": {"restart"}, "C05": {"restart"}}
 
 
 def gen_scenarios(ctx, u, path):
@@ -119,28 +127,58 @@ def gen_scenarios(ctx, u, path):
     if not r.ok:
         raise Inconclusive("scenario generation (exhaustive) failed:\n" + r.out[-1500:])
     nshort = n
+    # exhaustive sequences over the commands the property is about (whole files only, or shorter with parts)
+    focus = FOCUS.get(ctx.prop)
+    if focus:
+        parts_too = ctx.prop in FOCUS_PARTS
+        depth = (3 if parts_too else 4) + (0 if ctx.tier == "quick" else 1)
+        c = base_consts(u, dict(big, MaxCrash=1), hostile, {"MaxCmds": depth, "GenCrash": "TRUE", "Emit": "TRUE",
+                                                           "FullOnly": tla_bool(not parts_too),
+                                                           "Focus": "{" + ", ".join('"%s"' % o for o in focus) + "}"})
+        r = tlc(ctx, "MCStage", cfg("GenSpec", c, constraint="EmitScenario"), timeout=1500, heap="8g", sink=sink)
+        if not r.ok:
+            raise Inconclusive("scenario generation (focus) failed:\n" + r.out[-1500:])
+    nfocus = n - nshort
     # model-guided random walks
     num = 150 if ctx.tier == "quick" else 2500
     c = base_consts(u, big, hostile, {"MaxCmds": 9, "GenCrash": "TRUE", "Emit": "TRUE"})
     r = tlc(ctx, "MCStage", cfg("GenSpec", c, constraint="EmitScenario"), timeout=900, heap="4g", sink=sink,
             workers=8, simulate="num=%d" % num, extra=["-depth", "70", "-seed", str(ctx.seed)])
     out.close()
-    ctx.notes.setdefault("generated", {})[u] = {"short_exhaustive": nshort, "random_walks": n - nshort}
+    ctx.notes.setdefault("generated", {})[u] = {"short_exhaustive": nshort, "focus_exhaustive": nfocus,
+                                                "random_walks": n - nshort - nfocus}
     cap = QUICK_CAP if ctx.tier == "quick" else None
     if cap and n > cap:
-        # the quick tier executes all short sequences and a seeded sample of the walk prefixes
+        # the quick tier executes all short sequences, a seeded sample of the focused sequences (at most
+        # two thirds of the cap) and a seeded sample of the walk prefixes
         lines = open(path).read().splitlines()
-        short, walks = lines[:nshort], lines[nshort:]
+        short, foc, walks = lines[:nshort], lines[nshort:nshort + nfocus], lines[nshort + nfocus:]
         rnd = random.Random(ctx.seed * 7919 + len(u))
-        keep = set(rnd.sample(range(len(walks)), max(0, cap - len(short))))
+        if len(foc) > 2 * cap // 3:
+            foc = rnd.sample(foc, 2 * cap // 3)
+        # walks that exercise what the property is about come first (e.g. ageing + cleaning for C20)
+        want = WANT_OPS.get(ctx.prop)
+        idx = list(range(len(walks)))
+        rnd.shuffle(idx)
+        if want:
+            def relevant(i):
+                ops = {c["op"] for c in json.loads(walks[i])["cmds"]}
+                return want <= ops
+            idx.sort(key=lambda i: 0 if relevant(i) else 1)
+        keep = sorted(idx[:max(0, cap - len(short) - len(foc))])
         with open(path, "w") as f:
-            for l in short:
+            for l in short + foc + [walks[i] for i in keep]:
                 f.write(l + "\n")
-            for i, l in enumerate(walks):
-                if i in keep:
-                    f.write(l + "\n")
-        ctx.notes["generated"][u]["executed"] = len(short) + len(keep)
-        n = len(short) + len(keep)
+        n = len(short) + len(foc) + len(keep)
+        ctx.notes["generated"][u]["executed"] = n
+    # the recorded failing history of every open finding of this engine is executed on every run, so that
+    # the KNOWN-FINDING line does not depend on the sample
+    wit = [f for f in known_findings() if f.get("status") == "open" and f.get("witness", {}).get("universe") == u]
+    if wit:
+        with open(path, "a") as f:
+            for i, w in enumerate(wit):
+                f.write(json.dumps({"id": 900000 + i, "u": UNIVERSES[u]["json"], "cmds": w["witness"]["cmds"]}) + "\n")
+        n += len(wit)
     return n
 
 
@@ -224,11 +262,30 @@ def validate(ctx, prop, u, traces, label):
     if bad:
         return
     # open known findings: with one switch off at a time, does the formula fail (on exactly that)?
+    sub = traces + ".kf"
+    with open(sub, "w") as f:
+        cur, keep = [], False
+        for line in list(open(traces)) + ['{"op":"reset"}\n']:
+            if '"op":"reset"' in line:
+                if keep:
+                    f.writelines(cur)
+                cur, keep = [], False
+            cur.append(line)
+            if '"restart"' in line or '"recover"' in line or '"expire"' in line or '"crashed":true' in line:
+                keep = True
+
     def kf_run(k):
+        if os.path.getsize(sub) == 0:
+            return k, []
         c2 = dict(consts)
         c2["KF_" + k] = "FALSE"
-        rs = validate_traces(ctx, "MCStage", traces, c2, forms, spec="MCObsSpec", parts=2)
-        return k, [r for _, _, _, r in rs if r.violated]
+        rs = validate_traces(ctx, "MCStage", sub, c2, forms, spec="MCObsSpec", parts=3)
+        hits = [(pp, r) for pp, _, _, r in rs if r.violated]
+        if hits and os.environ.get("VERIF_SAVE_WITNESS"):
+            pp, r = hits[0]
+            save_replay(ctx, "witness-%s-%s" % (k, u), {"kind": "stage-witness", "finding": k, "universe": u,
+                                                       "formula": r.violated[0], "scenario": scenario_of_prefix(r, pp)})
+        return k, [r for _, r in hits]
 
     opened = [k for k in KFS if kf_open(k)]
     with cf.ThreadPoolExecutor(max_workers=8) as ex:
@@ -258,20 +315,28 @@ def check(ctx, replay=None):
     build_harness(ctx)
     if replay:
         return do_replay(ctx, replay)
-    # 1. design
+    # 1. design (the configurations run concurrently with step 2; their results are read at the end)
     budgets = BUDGETS if ctx.tier == "quick" else BUDGETS_THOROUGH
-    for (u, kind) in P["dcfg"]:
+
+    def design(uk):
+        u, kind = uk
         c = base_consts(u, budgets[kind], False)
-        r = tlc(ctx, "MCStage", cfg("DesignSpec", c, P["design"]), timeout=3000, heap="16g")
-        ctx.states += r.distinct
-        ctx.transitions += r.generated
-        ctx.notes["design_%s_%s" % (u, kind)] = {"distinct": r.distinct, "generated": r.generated, "depth": r.depth,
-                                                 "budgets": budgets[kind], "wall_s": round(r.wall, 1)}
-        if r.violated:
-            raise Inconclusive("design counterexample for %s in Stage.tla (%s, %s): the model or a KF switch needs "
-                               "attention before the check can decide; see %s" % (r.violated[0], u, kind, r.cex))
-        if not r.ok:
-            raise Inconclusive("TLC did not finish Stage.tla (%s %s):\n%s" % (u, kind, r.out[-1500:]))
+        return u, kind, tlc(ctx, "MCStage", cfg("DesignSpec", c, P["design"]), timeout=3000,
+                            heap="14g")
+    design_futs = []
+
+    def design_results():
+        for uk in P["dcfg"]:
+            u, kind, r = design(uk)
+            ctx.states += r.distinct
+            ctx.transitions += r.generated
+            ctx.notes["design_%s_%s" % (u, kind)] = {"distinct": r.distinct, "generated": r.generated, "depth": r.depth,
+                                                     "budgets": budgets[kind], "wall_s": round(r.wall, 1)}
+            if r.violated:
+                raise Inconclusive("design counterexample for %s in Stage.tla (%s, %s): the model or a KF switch needs "
+                                   "attention before the check can decide; see %s" % (r.violated[0], u, kind, r.cex))
+            if not r.ok:
+                raise Inconclusive("TLC did not finish Stage.tla (%s %s):\n%s" % (u, kind, r.out[-1500:]))
     # 2. behaviours -> real code -> traces -> TLC
     delivered = 0
     for u in P["universes"]:
@@ -311,6 +376,7 @@ def check(ctx, replay=None):
         log("  %s: validated at %.0fs" % (u, _t.time() - t0))
         if ctx.violations:
             break
+    design_results()
     ctx.notes["distinct_nontrivial"] = delivered
     ctx.exhaustive = False
     ctx.assumptions = ["every API call is run to quiescence before the next one (interleavings inside the receiver are "
